@@ -190,9 +190,236 @@ func seqStep(m kvMap, model map[int]int64, o *rec) (sig, msg string) {
 	return "", ""
 }
 
+// nestedRange: one Range call whose callback makes further calls on the same map -
+// Loads, nested full Ranges, and also Stores/Deletes. The Range contract is judged
+// with the nested mutations taken into account: no key twice, every visited value is
+// one the key held at some moment of the call, and every key that was present at the
+// start and not touched by a nested call is visited. The nested calls themselves must
+// return what a map[K]V returns.
+func nestedRange(c *core.Ctx, m kvMap, model map[int]int64, g *mapOpGen) (sig, msg string, out rec) {
+	r := g.r
+	start := map[int]int64{}
+	for k, v := range model {
+		start[k] = v
+	}
+	held := map[int][]int64{}
+	touched := map[int]bool{}
+	out = rec{Op: opRange, Full: true}
+	var nested []string
+	m.Range(func(k int, v int64) bool {
+		out.Visited = append(out.Visited, kv{k, v})
+		if sig != "" {
+			return false
+		}
+		switch r.Intn(4) {
+		case 0: // read back the pair just visited (if no nested call has touched it)
+			if !touched[k] {
+				if lv, ok := m.Load(k); !ok || lv != v {
+					sig, msg = "Range:nested-Load", fmt.Sprintf("inside the Range callback for (k%d,%d), Load(k%d) returned (%d,%v)", k, v, k, lv, ok)
+				}
+			}
+		case 1: // nested full Range: exactly the current contents
+			seen := map[int]int64{}
+			dup := false
+			m.Range(func(k2 int, v2 int64) bool {
+				if _, d := seen[k2]; d {
+					dup = true
+				}
+				seen[k2] = v2
+				return true
+			})
+			if dup || len(seen) != len(model) {
+				sig, msg = "Range:nested-Range", fmt.Sprintf("a Range started inside a Range callback visited %v, the map holds %v", seen, model)
+			}
+			for k2, v2 := range seen {
+				if mv, ok := model[k2]; !ok || mv != v2 {
+					sig, msg = "Range:nested-Range", fmt.Sprintf("a Range started inside a Range callback visited (k%d,%d), the map holds %v", k2, v2, model)
+				}
+			}
+			c.Count("seq_nested_range_in_range", 1)
+		case 2: // nested call of any kind
+			o := g.next()
+			for o.Op == opRange {
+				o = g.next()
+			}
+			doMapOp(m, &o)
+			wv, wok := applyModel(model, o)
+			if (o.Op == opLoad || o.Op == opLoadOrStore || o.Op == opLoadAndDelete) && (o.Ok != wok || o.Val != wv) {
+				sig, msg = "Range:nested-"+opNames[o.Op], fmt.Sprintf("inside a Range callback %s(k%d) returned (%d,%v), a map[K]V returns (%d,%v)", opNames[o.Op], o.Key, o.Val, o.Ok, wv, wok)
+			}
+			if o.Op != opLoad {
+				touched[o.Key] = true
+				if cv, ok := model[o.Key]; ok {
+					held[o.Key] = append(held[o.Key], cv)
+				}
+			}
+			nested = append(nested, o.String())
+			c.Count("seq_nested_calls_in_range", 1)
+		}
+		return sig == ""
+	})
+	if sig != "" {
+		msg += fmt.Sprintf(" (nested calls so far: %v)", nested)
+		return
+	}
+	seen := map[int]bool{}
+	for _, e := range out.Visited {
+		if seen[e.K] {
+			return "Range:key-twice", fmt.Sprintf("Range (with nested calls %v) visited key %d twice: %v", nested, e.K, out.Visited), out
+		}
+		seen[e.K] = true
+		ok := false
+		if sv, has := start[e.K]; has && sv == e.V {
+			ok = true
+		}
+		for _, hv := range held[e.K] {
+			if hv == e.V {
+				ok = true
+			}
+		}
+		if !ok {
+			return "Range:wrong-pair", fmt.Sprintf("Range (with nested calls %v) visited (k%d,%d), a value the key never held during the call (start %v)", nested, e.K, e.V, start), out
+		}
+	}
+	for k := range start {
+		if !touched[k] && !seen[k] {
+			return "Range:missed-key", fmt.Sprintf("Range (with nested calls %v) did not visit key %d, which was present and untouched for the whole call; visited %v", nested, k, out.Visited), out
+		}
+	}
+	return "", "", out
+}
+
+// c04seqBig: thousands of keys in one map, in scripted phases (fill, read everything,
+// delete everything key by key, reuse) interleaved with random calls: sizes where a
+// re-implemented promotion, pruning or shrinking policy changes its behaviour.
+func c04seqBig(c *core.Ctx) {
+	r := c.R
+	hooksOff()
+	var im sync2.Map[int, int64]
+	var m kvMap = &im
+	model := map[int]int64{}
+	nk := r.Range(1100, 3000)
+	var calls int
+	var last []rec
+	step := func(o rec) bool {
+		sig, msg := seqStep(m, model, &o)
+		calls++
+		if o.Op == opRange {
+			o.Visited = nil
+		}
+		last = append(last, o)
+		if len(last) > 60 {
+			last = last[len(last)-60:]
+		}
+		if sig != "" {
+			c.Violate("seq:"+sig+"[big]", msg+fmt.Sprintf(" [sequential, %d keys, call %d]", nk, calls), map[string]any{"last_calls": histStrings(last, 60)})
+			return false
+		}
+		return true
+	}
+	val := int64(0)
+	phases := []string{}
+	for ph := 0; ph < 6; ph++ {
+		kind := r.Intn(6)
+		if ph == 0 {
+			kind = 0
+		}
+		switch kind {
+		case 0: // fill (Store or LoadOrStore), all keys or a random half
+			phases = append(phases, "fill")
+			for k := 0; k < nk; k++ {
+				if ph > 0 && r.Bool() {
+					continue
+				}
+				val++
+				op := opStore
+				if r.Bool() {
+					op = opLoadOrStore
+				}
+				if !step(rec{Op: op, Key: k, Arg: val}) {
+					return
+				}
+			}
+		case 1: // read everything (hits and misses), with a Range in between
+			phases = append(phases, "read-all")
+			for k := -5; k < nk+5; k++ {
+				if !step(rec{Op: opLoad, Key: k}) {
+					return
+				}
+				if k == nk/2 && !step(rec{Op: opRange}) {
+					return
+				}
+			}
+		case 2: // delete everything key by key
+			phases = append(phases, "delete-all")
+			for _, k := range r.Perm(nk) {
+				op := opDelete
+				if r.Bool() {
+					op = opLoadAndDelete
+				}
+				if !step(rec{Op: op, Key: k}) {
+					return
+				}
+			}
+			if !step(rec{Op: opRange}) {
+				return
+			}
+		case 3: // delete all but a handful, then use those and new keys
+			phases = append(phases, "shrink-to-few")
+			keep := r.Range(0, 3)
+			for _, k := range r.Perm(nk) {
+				if len(model) <= keep {
+					break
+				}
+				if !step(rec{Op: opLoadAndDelete, Key: k}) {
+					return
+				}
+			}
+			for i := 0; i < 12; i++ {
+				val++
+				if !step(rec{Op: []int{opLoad, opStore, opLoadOrStore, opDelete}[r.Intn(4)], Key: r.Intn(nk + 3), Arg: val}) {
+					return
+				}
+			}
+		case 4:
+			phases = append(phases, "range")
+			if !step(rec{Op: opRange}) || !step(rec{Op: opRange, Arg: int64(1 + r.Intn(5))}) {
+				return
+			}
+		case 5: // random calls over all keys
+			phases = append(phases, "random")
+			g := &mapOpGen{r: r, keys: []int{0}, rangeW: 0}
+			for i := 0; i < 2000; i++ {
+				o := g.next()
+				o.Key = r.Intn(nk + 2)
+				if !step(o) {
+					return
+				}
+			}
+		}
+	}
+	for k := 0; k < nk; k++ {
+		if v, ok := m.Load(k); ok != (func() bool { _, has := model[k]; return has })() || v != model[k] {
+			c.Violate("seq:final-Load[big]", fmt.Sprintf("final Load(k%d)=(%d,%v), model (%d)", k, v, ok, model[k]), map[string]any{"phases": phases})
+			return
+		}
+	}
+	c.Count("seq_big_histories", 1)
+	c.Count("seq_calls", int64(calls))
+	c.Max("seq_max_keys_in_one_map", int64(nk))
+	c.NonTrivial(core.Mix(c.Seed, uint64(nk), 4))
+	if c.WantSample() {
+		c.Sample(map[string]any{"mode": "seq/big", "keys": nk, "calls": calls, "phases": phases})
+	}
+}
+
 func c04seq(c *core.Ctx) {
 	r := c.R
 	hooksOff()
+	if c.Index%40 == 17 {
+		c04seqBig(c)
+		return
+	}
 	var im sync2.Map[int, int64]
 	torn := false
 	tm := &typedMap{torn: &torn}
@@ -217,6 +444,18 @@ func c04seq(c *core.Ctx) {
 	var hist []rec
 	prev := layout()
 	for i := 0; i < n; i++ {
+		if r.Chance(1, 25) {
+			// a Range whose callback calls the map itself ("f may call any method on m")
+			sig, msg, o := nestedRange(c, m, model, g)
+			hist = append(hist, o)
+			c.Count("seq_calls", 1)
+			c.Count("seq_Range_with_nested_calls", 1)
+			if sig != "" {
+				c.Violate("seq:"+sig, msg+fmt.Sprintf(" [sequential, call %d]", i), map[string]any{"history": histStrings(hist, 400)})
+				return
+			}
+			continue
+		}
 		o := g.next()
 		// bias towards misses on absent keys (they drive promotion)
 		if o.Op == opLoad && r.Chance(1, 3) {
